@@ -149,14 +149,23 @@ def wl_snapshots(ctx, rng, case):
         snap = Snapshotter(ctx, path, orc)
         snap.boundary("after creation")
         added = []
+        # some histories hand every key over in ONE mutable buffer that the caller refills in place between the calls (a read loop)
+        buf = bytearray() if hf is None and rng.random() < 0.2 else None
+        if buf is not None:
+            case.desc["keys_in_one_reused_bytearray"] = True
+            ctx.count("histories_with_a_reused_key_buffer")
         for step in range(rng.randint(3, 14)):
             r = rng.random()
             if r < 0.6:
                 key = rng.choice(keys)
                 case.op("add", key)
                 snap.inflight, snap.label = key, f"add #{len(added) + 1} ({key!r})"
+                arg = key
+                if buf is not None:
+                    buf[:] = gen.to_bytes(key)
+                    arg = buf if rng.random() < 0.7 else memoryview(buf)
                 with linehook.on_every_line(snap):
-                    f.add(key) if rng.random() < 0.8 else f.add_alt(f.hashes(key))
+                    f.add(arg) if rng.random() < 0.8 else f.add_alt(f.hashes(arg))
                 orc.complete(key)
                 added.append(key)
                 snap.inflight = None
